@@ -1402,6 +1402,47 @@ theorem C18_accept_wf (ctx : Ctx) (req : Req) (e : Effect)
                 refine ⟨⟨⟨⟨by omega, by decide⟩, ?_⟩, by decide⟩, hlim.2⟩
                 exact (viol_r 1 75 _).mpr hlim
 
+/-! ## non-vacuity: the hypotheses of the theorems are satisfiable on concrete states
+(kept small: `decide` evaluates the model in the kernel without sharing) -/
+
+def exSchema : Schema :=
+  [(S "vec", { type := tVectorFlat, flat := some ⟨2, S "euclidean", none⟩, vamana := none, text := none, string := none, stringArray := none })]
+def exSchema2 : Schema := exSchema ++
+  [(S "meta.kind", { type := tString, flat := none, vamana := none, text := none, string := some false, stringArray := none })]
+def exCtx : Ctx := { plan := ⟨6, 60, 1024⟩, ncols := 1, exists_ := false, cidLen := 5, col := some ⟨exSchema, 3⟩ }
+def exPoint (n : Nat) : J := .obj [(S "vec", .arr (List.replicate n (.num .f64 0x3FF0000000000000)))]
+def exQuery (n : Nat) : Query :=
+  .mk pAnd none none none none none none none none none none
+    [.mk (S "vec") (some ⟨List.replicate n 0, S "near", 0, 5, none⟩) none none none none none none none none none [] []] []
+def exSearch (n : Nat) : SearchReq :=
+  { query := exQuery n, select := [S "*"], sort := [⟨S "vec", true⟩], offset := 0x7fffffffffffffff, limit := 100 }
+
+-- C18_vec_len / C18_accept_wf / C18_reject_pure: an accepted insert (hypothesis `eff = some e`, one point) ...
+example : (handle Spec.documented Enums.documented exCtx (.v2Insert (some [exPoint 2]))).status = 200 := by decide
+example : ((handle Spec.documented Enums.documented exCtx (.v2Insert (some [exPoint 2]))).eff.map fun e => e.points.length) = some 1 := by decide
+-- ... whose stored vector is read back by the index with length 2
+example : ((v2InsertPoint exSchema 1024 (exPoint 2)).map fun p => (vectorReaching (S "vec") p.data).map List.length) = some (some 2) := by decide
+-- a vector of length 3 or 1 is refused and nothing is handed on
+example : (handle Spec.documented Enums.documented exCtx (.v2Insert (some [exPoint 3]))).status = 400 := by decide
+example : (handle Spec.documented Enums.documented exCtx (.v2Insert (some [exPoint 1]))).eff.isNone = true := by decide
+-- CheckCompatibleMap over two entries, one of them nested, with an `_id`
+example : (compat exSchema2 [(pId, .str (S "123e4567-e89b-12d3-a456-426614174000")),
+    (S "vec", .arr [.num .f32 0, .num .f64 0]), (S "meta", .obj [(S "kind", .str (S "x"))])]).isSome = true := by decide
+example : (compat exSchema2 [(S "vec", .arr [.num .f32 0, .num .f64 0]), (S "meta", .str (S "x"))]).isSome = false := by decide
+-- C18_vec_len_search: an accepted search with offset = MaxInt64 (the input of DESIGN section 8 no. 10);
+-- one query vector reaches a distance closure
+example : (handle Spec.documented Enums.documented exCtx (.v2Search (some (exSearch 2)))).status = 200 := by decide
+example : ((exQuery 2).reach exSchema).length = 1 := by decide
+example : (handle Spec.documented Enums.documented exCtx (.v2Search (some (exSearch 3)))).status = 400 := by decide
+-- C18_no_panic: the stored schema passes IndexSchema.Validate
+example : exSchema2.valid Spec.documented Enums.documented = true := by decide
+-- v1 on a collection without the v1 index: refused with 400 (pinned tree: nil dereference)
+example : (handle Spec.documented Enums.documented exCtx (.v1Search (some ⟨[0, 0], 5⟩))).status = 400 := by decide
+-- C18_vec_len_stored, hypothesis `hm`: one new key, nothing deleted
+example : ∀ k, lookup [(S "note", J.null)] k = mergeLookup [] [(S "note", J.null)] k := by
+  intro k
+  by_cases h : S "note" = k <;> simp [mergeLookup, lookup, h, isDeleteVal]
+
 /-! ## the decision skeleton the model was written against (T2 pin)
 
 Every `if` condition, `switch` tag, `case` list and type-switch case list, in source order, of every
